@@ -24,7 +24,7 @@ META = {
         "linalg.solve_fermionic",
     ],
     "floors": {
-        "quick": {"evaluations": 6000, "distinct_nontrivial": 1500, "tables": {"pending/yes": 3000, "stream/programs": 1500, "op": 5000}},
+        "quick": {"evaluations": 6000, "distinct_nontrivial": 1500, "tables": {"pending/yes": 3000, "stream/programs": 1500, "op": 5000, "stream/derived": 5000, "op/derived:sync_charges": 300, "op/derived:align_axes": 200, "op/derived:qr": 100}},
         "thorough": {"evaluations": 250000, "distinct_nontrivial": 40000, "tables": {"pending/yes": 100000, "stream/programs": 60000}},
     },
     "wall": {"quick": 100, "thorough": 1500},
@@ -479,6 +479,80 @@ def case_table(ctx, rng):
             ctx.nontrivial(("table", name, struct_sig(L), tuple(sorted(map(repr, phases_of(L))))))
 
 
+def _inplace_sign_op(rng, y):
+    """An in-place operation on y that touches only y's own pending signs / blocks."""
+    nd = y.ndim
+    ops = [("phase_sync", lambda a: a.phase_sync(inplace=True)), ("phase_global", lambda a: a.phase_global(inplace=True))]
+    if nd:
+        perm = tuple(rng.sample(range(nd), nd))
+        axs = rng.sample(range(nd), rng.randint(1, nd))
+        ops += [
+            ("phase_transpose", lambda a: a.phase_transpose(perm, inplace=True)),
+            ("phase_flip", lambda a: a.phase_flip(*axs, inplace=True)),
+            ("transpose", lambda a: a.transpose(perm, inplace=True)),
+            ("conj", lambda a: a.conj(inplace=True)),
+        ]
+    if y.blocks:
+        sec = rng.choice(sorted(y.blocks, key=repr))
+        ops.append(("phase_sector", lambda a: a.phase_sector(sec, inplace=True)))
+    return rng.choice(ops)
+
+
+def case_derived(ctx, rng):
+    """Signs are applied exactly once *per array*: an array derived from a lazy one (by any
+    out-of-place operation) and its source are independent afterwards - an in-place sign
+    operation on one of them never changes the value of the other."""
+    sr = ctx.sr
+    x, exact = make_lazy(ctx, rng, matrix=rng.random() < 0.4)
+    if not x.blocks:
+        return
+    wit = {"x": describe(x, True)}
+    r = rng.random()
+    if r < 0.45:
+        # derivations that keep the sector layout (where sharing a sign table would be possible)
+        cands = [("sync_charges", lambda a: a.sync_charges()), ("copy", lambda a: a.copy()), ("drop_missing", lambda a: a.drop_missing_blocks() if hasattr(a, "drop_missing_blocks") else a.copy())]
+        if x.ndim:
+            k = rng.randrange(x.ndim)
+            other = x.conj()
+            cands += [("align_axes", lambda a: a.align_axes(other, ((k,), (k,)))), ("align_axes-second", lambda a: other.align_axes(a, ((k,), (k,))))]
+        if x.ndim == 2:
+            cands += [("qr", lambda a: sr.linalg.qr(a)), ("svd", lambda a: sr.linalg.svd(a)), ("svd_truncated", lambda a: sr.linalg.svd_truncated(a, max_bond=rng.randint(1, 4)))]
+        name, f = rng.choice(cands)
+    else:
+        name, f, _ = build_op(ctx, rng, x)
+    o = ctx.call(f, x)
+    if not o.ok:
+        ctx.count("refusal", f"derive:{name}")
+        return
+    outs = [v for v in (o.value if isinstance(o.value, (tuple, list)) else [o.value]) if is_array(v) and getattr(v, "fermionic", False) and v is not x]
+    if not outs:
+        return
+    y = rng.choice(outs)
+    vx, vy = embed(x), embed(y)
+    ctx.evaluated()
+    ctx.count("stream", "derived")
+    ctx.count("op", "derived:" + name)
+    ctx.count("pending", "yes" if has_pending(x) else "no")
+    target, other, v_other, who = (y, x, vx, "source") if rng.random() < 0.6 else (x, y, vy, "derived array")
+    iname, g = _inplace_sign_op(rng, target)
+    wit.update(derivation=name, inplace_op=iname, applied_to="derived array" if target is y else "source")
+    o2 = ctx.call(g, target)
+    if not o2.ok:
+        ctx.count("refusal", f"inplace:{iname}")
+        return
+    ctx.count("inplace", iname)
+    try:
+        v_after = embed(other)
+    except Exception as e:
+        ctx.violation("derived-array-shares-sign-table", f"after {iname}(inplace) on the other array the {who} cannot be densified: {e!r}", wit)
+        return
+    if v_after.shape != v_other.shape or not np.array_equal(v_after, v_other):
+        ctx.violation("derived-array-shares-sign-table", f"y = {name}(x); {iname}(inplace=True) on the {'derived array' if target is y else 'source'} changed the value of the {who} (its pending signs are now applied {'zero or two' } times)", wit)
+        return
+    if has_pending(x) or has_pending(y):
+        ctx.nontrivial(("derived", name, iname, target is y, struct_sig(x)))
+
+
 def run(ctx):
     for _, rng in ctx.cases("table", ctx.budget(20000, 400000)):
         ctx.run_case(case_table, ctx, rng)
@@ -486,3 +560,5 @@ def run(ctx):
         ctx.run_case(case_single, ctx, rng)
     for _, rng in ctx.cases("programs", ctx.budget(18000, 300000)):
         ctx.run_case(case_program, ctx, rng)
+    for _, rng in ctx.cases("derived", ctx.budget(30000, 500000)):
+        ctx.run_case(case_derived, ctx, rng)
